@@ -321,3 +321,12 @@ package core
 //@   loop 1: invariant[C10.dispatch_loop] embedded ==> eok
 //@   assert[C10.dispatch_only_enabled_rules]    at "append(w.Children, child)": embedded || ruleOK == id
 //@   assert[C10.dispatch_only_enabled_location] at "append(w.Children, child)": eok
+
+// ---- C12: lock discipline of the two state implementations ---------------------------------
+//@ guard IndexedState.IdToFact by IndexedState.RWMutex
+//@ guard IndexedState.FactIndex by IndexedState.RWMutex
+//@ guard IndexedState.RuleIndex by IndexedState.RWMutex
+//@ guard IndexedState.Loaded by IndexedState.RWMutex
+//@ guard IndexedState.cachedRules by IndexedState.RWMutex
+//@ guard LinearState.Facts by LinearState.RWMutex
+//@ guard LinearState.cachedRules by LinearState.RWMutex
